@@ -69,6 +69,13 @@ def run(rep, tier, rng):
             for _ in range(2 if quick else 5):
                 w = np.array([rng.gauss(0, 1) for _ in range(d)])
                 srcs.append(("make_unitary", c.observe(lambda: A.make_unitary(w)), w))
+            if al == "AHrr":
+                # vectors with vanishing Fourier coefficients (zero, constant, alternating, ...): still made unitary
+                specials = [np.zeros(d), np.ones(d), np.array([(-1.0) ** i for i in range(d)]), np.array([float(i == 0) - float(i == 2 % d) for i in range(d)]),
+                            2.0 * np.eye(d)[0]]
+                for wsp in specials:
+                    srcs.append(("make_unitary-special", c.observe(lambda: A.make_unitary(wsp)), wsp))
+                    srcs.append(("sp-unitary-special", c.observe(lambda: SemanticPointer(wsp, vocab=voc).unitary().v), wsp))
             srcs.append(("sp-unitary", c.observe(lambda: SemanticPointer(w, vocab=voc).unitary().v), w))
             srcs.append(("UnitaryVectors", c.observe(lambda: next(UnitaryVectors(d, A, rng=np.random.RandomState(rng.randrange(10 ** 6))))), None))
             for nm, o, w in srcs:
